@@ -145,9 +145,16 @@ def _style_case(route, fg, bg, bits):
         f = AnsiFormatter(forced=True)
         f.add_style(st)
         out = f.format("<t>x</t>")
-    else:
+    elif route == 2:
         f = AnsiFormatter(forced=True)
         out = f.format("x", st)
+    else:
+        # passed for a single call, under a tag that is ALREADY registered with other colours (the passed style wins)
+        st._tag = "info"
+        f = AnsiFormatter(forced=True)
+        out = f.format("x", st)
+        if f.format("<info>y</info>") != "\x1b[32my\x1b[0m":
+            return False                    # ... and the registered style is untouched by the call
     if not exp:
         return out == "x"
     m = re.match(r"^\x1b\[([0-9;]+)mx\x1b\[0m$", out)
@@ -315,8 +322,8 @@ def conditions(tier):
                     conds.append({"name": "message[T1=%d,T5=%d,%s]" % (p0, p4, "short" if short else "long"), "fn": message, "timeout": t, "part": {"p0": p0, "p4": p4, "ti": None, "short": short},
                                   "bounds": "T1=%r, T5=%r; inner pieces and both tags symbolic" % (TEXTS[p0], TEXTS[p4])})
     conds.append({"name": "message_twin", "fn": message_twin, "timeout": t, "expect": "refute", "bounds": "reachability twin"})
-    for route in range(3):
-        rn = ["style set tag", "add_style", "format(style=)"][route]
+    for route in range(4):
+        rn = ["style set tag", "add_style", "format(style=)", "format(style=) with a registered tag"][route]
         if quick:
             conds.append({"name": "sgr[%s]" % rn, "fn": sgr, "timeout": t, "part": {"route": route, "bgs": [0, 2]},
                           "bounds": "11 foregrounds x {none, red} backgrounds x 2^7 attribute sets via %s" % rn})
